@@ -25,7 +25,19 @@ PILE_PROGS = [
      (2, 'E has X => r := 0'), (2, 'never'), (1, 'r')],
     [(0, 'define VC: Category == with'), (1, 'f: % -> %'), (1, 'g: (%, %) -> Boolean'), (1, 'default'), (2, 'g(a: %, b: %): Boolean =='), (3, 'a = b => true'), (3, 'false'),
      (0, 'k(n: MachineInteger): MachineInteger =='), (1, 'local t: MachineInteger := n'), (1, 'for i in 1..n for j in 2..n repeat'), (2, 't := t + i * j'),
-     (2, 'if t > 100 then'), (3, 'break'), (1, 'select n in'), (2, '1 => t'), (2, '2 => t + 1'), (2, 't + 2')],
+     (2, 'if t > 100 then'), (3, 'break'), (1, 'select n in'), (2, '1 => t'), (2, '2 => t + 1'), (2, 't + 2')],    # one-line piles: a block keyword followed by exactly one deeper line (the lineariser decides per keyword whether such a
+    # line is still bracketed), in every nesting where the bracket decides which `if` an outdented `else` belongs to
+    [(0, 'd1(a: Boolean, b: Boolean): MachineInteger =='), (1, 'r: MachineInteger := 0'), (1, 'if a then'), (2, 'if b then'), (3, 'r := 1'),
+     (1, 'else'), (2, 'r := 2'), (1, 'r'),
+     (0, 'd2(a: Boolean, b: Boolean): MachineInteger =='), (1, 'r: MachineInteger := 0'), (1, 'if a then'), (2, 'if b then r := 1'),
+     (1, 'else'), (2, 'r := 2'), (1, 'r'),
+     (0, 'd3(a: Boolean, b: Boolean): MachineInteger =='), (1, 'r: MachineInteger := 0'), (1, 'if a then'), (2, 'if b then'), (3, 'r := 1'),
+     (2, 'else'), (3, 'r := 3'), (1, 'else'), (2, 'if b then r := 4'), (1, 'r'),
+     (0, 'd4(a: Boolean, b: Boolean): MachineInteger =='), (1, 'r: MachineInteger := 0'), (1, 'for i in 1..3 repeat'), (2, 'if a then'),
+     (3, 'if b then r := r + i'), (2, 'else'), (3, 'for j in 1..2 repeat'), (4, 'if b then r := r - j'), (1, 'r'),
+     (0, 'd5(a: Boolean, b: Boolean): MachineInteger =='), (1, 'r: MachineInteger := 0'), (1, 'try'), (2, 'if a then r := q(1)'), (1, 'catch E in'),
+     (2, 'E has X => r := 5'), (2, 'never'), (1, 'finally'), (2, 'if a then r := r + 1'), (1, 'r'),
+     (0, 'd6(a: Boolean): MachineInteger =='), (1, 'if a then'), (2, 'if not a then 1 else 2'), (1, 'else'), (2, '3')],
 ]
 
 
